@@ -2,8 +2,9 @@
 (***************************************************************************)
 (* Case generation and design-level checks for C04.                        *)
 (*                                                                         *)
-(*   root -> base b -> rule r -> run(case)            single edits          *)
-(*   root -> base b -> rule r -> second(edit 1) -> run(case)   Tier "pairs" *)
+(*   root -> base -> rule -> chosen(edit) -> edit(judged) -> run(config)   *)
+(*   root -> base -> rule -> second(edit 1) -> second2(rule 2)             *)
+(*        -> chosen(edits 1, 2) -> edit -> run                Tier "pairs" *)
 (*                                                                         *)
 (* (an edited program passes through phase "edit" before its configurations fan out)  *)
 (* A case = base program x one edit of the catalogue (EditsFor) x backend  *)
@@ -59,12 +60,17 @@ Judge(p, c, case) ==
   IN /\ brk' = holding
      /\ broken' = IF holding # {} THEN TRUE ELSE Broken(p, c)
 
-\* an edited program, not yet run (its command line will be a good one)
-Edited(p, case) ==
-  /\ cs' = case /\ phase' = "edit"
-  /\ Judge(p, GoodCmd("go", FALSE), case)
-  /\ pre' = PreLabels(p)
-  /\ UNCHANGED <<bi, rule, cmd, expected, conf>> /\ IdleUnchanged
+\* an edit has been chosen (cheap: many successors); judging the edited program is one separate step
+Chosen(case) ==
+  /\ cs' = case /\ phase' = "chosen"
+  /\ UNCHANGED <<bi, rule, cmd, brk, broken, expected, conf, pre>> /\ IdleUnchanged
+\* the edited program is judged once, before its configurations fan out (its command line will be a good one)
+Prepare ==
+  /\ phase = "chosen"
+  /\ phase' = "edit"
+  /\ Judge(CaseProg, GoodCmd("go", FALSE), cs)
+  /\ pre' = PreLabels(CaseProg)
+  /\ UNCHANGED <<bi, rule, cs, cmd, expected, conf>> /\ IdleUnchanged
 
 \* enter the pipeline with program p and command line c
 Enter(p, c) ==
@@ -92,7 +98,7 @@ PickEdit ==
   /\ phase = "rule" /\ rule \in IDLRules /\ Tier # "pairs"
   /\ LET base == Bases[bi].prog
          es == EditsFor(base, rule, 1, Deep)
-     IN \E k \in Idx(es) : Edited(ApplyEdit(base, es[k]), IdlCase(<<es[k]>>))
+     IN \E k \in Idx(es) : Chosen(IdlCase(<<es[k]>>))
 PickConfig ==
   /\ phase = "edit"
   /\ \E c \in Configs(rule) : Start(CaseProg, GoodCmd(c[1], c[2]), cs)
@@ -114,12 +120,15 @@ PickFirst ==
      IN \E k \in Idx(es) : cs' = IdlCase(<<es[k]>>)
   /\ phase' = "second"
   /\ UNCHANGED <<bi, rule, cmd, brk, broken, expected, conf, pre>> /\ IdleUnchanged
-PickSecond ==
+PickSecondRule ==
   /\ phase = "second"
-  /\ \E r2 \in IDLRules :
-       LET base == Bases[bi].prog
-           es == EditsFor(base, r2, 2, FALSE)
-       IN \E k \in Idx(es) : LET both == cs.edits \o <<es[k]>> IN Edited(ApplyEdits(base, both), IdlCase(both))
+  /\ \E r2 \in IDLRules : rule' = r2
+  /\ phase' = "second2"
+  /\ UNCHANGED <<bi, cs, cmd, brk, broken, expected, conf, pre>> /\ IdleUnchanged
+PickSecond ==
+  /\ phase = "second2"
+  /\ LET es == EditsFor(Bases[bi].prog, rule, 2, FALSE)
+     IN \E k \in Idx(es) : Chosen(IdlCase(cs.edits \o <<es[k]>>))
 
 Run == /\ phase = "run"
        /\ BNextPre(CaseProg, cmd, pre)
@@ -129,7 +138,7 @@ Run == /\ phase = "run"
 \* broken, brk, expected and pre are functions of (bi, cs, cmd): they are left out of the fingerprint
 View == <<stage, outcome, filesWritten, li, mech, phase, bi, rule, cs, cmd, conf>>
 
-Next == PickBase \/ PickRule \/ PickEdit \/ PickConfig \/ PickCmdFault \/ PickNone \/ PickFirst \/ PickSecond \/ Run
+Next == PickBase \/ PickRule \/ PickEdit \/ Prepare \/ PickConfig \/ PickCmdFault \/ PickNone \/ PickFirst \/ PickSecondRule \/ PickSecond \/ Run
 Spec == Init /\ [][Next]_vars
 
 -----------------------------------------------------------------------------
